@@ -56,6 +56,17 @@ def _single_assign(body, local):
     return None
 
 
+def _closure_root(body, l):
+    """the local in which a closure value was built, followed back through plain moves / copies of the variable"""
+    for _ in range(6):
+        rv = _single_assign(body, l)
+        if rv is not None and rv['r'] == 'use' and op_local(rv['o']) is not None:
+            l = op_local(rv['o'])
+            continue
+        break
+    return l
+
+
 class Bail(Exception):
     pass
 
@@ -148,6 +159,7 @@ class Rewriter:
         insts, body = self.insts, self.body
         cbody = insts[ckey]
         inline_body(insts, cbody, self.done)
+        closure_local = _closure_root(body, closure_local)
         crv = _single_assign(body, closure_local)
         if crv is None or crv['r'] != 'agg' or crv.get('kind') != 'closure':
             raise Bail('closure value is not built in this body')
@@ -332,6 +344,99 @@ class Rewriter:
             raise Bail('closure operand is not a local')
         return ck[0], cl
 
+    def static_source(self, it, neutralise, depth=0):
+        """elements of an iterator value built from `core::iter::once(a)`, `Option` values and `chain`: list of ('val', operand) /
+        ('opt', operand), or None when the source is not of that kind"""
+        body = self.body
+        if depth > 6:
+            return None
+        d = _defs_of(body, it)
+        if len(d) != 1 or d[0][0] != 'call':
+            return None
+        cb = d[0][1]
+        ct = body['blocks'][cb]['term']
+        if not ct.get('leaf') or ct['to'] < 0:
+            return None
+        cal = ct['callee']
+        tys = ct.get('argtys', [])
+        if re.search(r'core::iter::(sources::once::)?once::<', cal) and len(ct['args']) == 1:
+            neutralise.append(cb)
+            return [('val', ct['args'][0])]
+        if cal.endswith(' as core::iter::IntoIterator>::into_iter') and tys and tys[0].startswith('core::option::Option<'):
+            neutralise.append(cb)
+            return [('opt', ct['args'][0])]
+        if ' as core::iter::Iterator>::chain::<' in cal and len(ct['args']) == 2:
+            a = op_local(ct['args'][0])
+            first = self.static_source(a, neutralise, depth + 1) if a is not None else None
+            if first is None:
+                return None
+            if len(tys) > 1 and tys[1].startswith('core::option::Option<'):
+                second = [('opt', ct['args'][1])]
+            else:
+                b = op_local(ct['args'][1])
+                second = self.static_source(b, neutralise, depth + 1) if b is not None else None
+            if second is None:
+                return None
+            neutralise.append(cb)
+            return first + second
+        return None
+
+    def rewrite_static(self, bi, kind, elems, ckey, cl_local, nargs, neutralise):
+        """`once(a).chain(opt).for_each(c)` and the like: the body of c once per element, in order; an Option element only when Some"""
+        body = self.body
+        blocks = body['blocks']
+        t = blocks[bi]['term']
+        at = t.get('at')
+        dest, T = t['dest'], t['to']
+        A = lambda pl, rv: {'s': 'assign', 'pl': pl, 'rv': rv, 'at': at}
+        use = lambda o: {'r': 'use', 'o': o}
+        mv = lambda l, p=None: {'k': 'move', 'pl': ({'l': l, 'p': p} if p else {'l': l})}
+        unit = {'k': 'const', 'ty': '()', 'v': '()'}
+        cbool = lambda v: {'k': 'const', 'ty': 'bool', 'v': 'true' if v else 'false'}
+        n = len(elems)
+        for k, (ek, o) in enumerate(elems):
+            nxt = 'EL%d' % (k + 1) if k + 1 < n else 'NONE'
+            cB0, cL0, cbody = self.splice(ckey, cl_local, 'RET%d' % k, at)
+            ret_local, ret_ty = cL0, cbody['locals'][0]
+            if ek == 'val':
+                self.add_block('EL%d' % k, [A({'l': cL0 + nargs}, use(o))], {'t': 'goto', 'to': cB0})
+            else:
+                if o['k'] not in ('copy', 'move'):
+                    raise Bail('constant Option source')
+                opt_ty = body['locals'][o['pl']['l']] if not o['pl'].get('p') else 'core::option::Option<?>'
+                d_k = self.newlocal('isize')
+                self.add_block('EL%d' % k, [A({'l': d_k}, {'r': 'discr', 'pl': o['pl'], 'ty': opt_ty})],
+                               {'t': 'switch', 'd': mv(d_k), 'dty': 'isize', 'arms': [[0, nxt], [1, 'Y%d' % k]], 'otherwise': 'UNR', 'at': at})
+                src = {'k': 'move', 'pl': {'l': o['pl']['l'], 'p': list(o['pl'].get('p', [])) + [{'v': 1, 'n': 'Some'}, {'f': 0, 'n': '0'}]}}
+                self.add_block('Y%d' % k, [A({'l': cL0 + nargs}, use(src))], {'t': 'goto', 'to': cB0})
+            if kind == 'for_each':
+                self.add_block('RET%d' % k, [], {'t': 'goto', 'to': nxt})
+            elif kind == 'all':
+                self.add_block('RET%d' % k, [], {'t': 'switch', 'd': mv(ret_local), 'dty': 'bool', 'arms': [[0, 'BRK']], 'otherwise': nxt, 'at': at})
+            elif kind == 'any':
+                self.add_block('RET%d' % k, [], {'t': 'switch', 'd': mv(ret_local), 'dty': 'bool', 'arms': [[0, nxt]], 'otherwise': 'BRK', 'at': at})
+            else:   # try_for_each
+                if not ret_ty.startswith('core::result::Result<'):
+                    raise Bail('try_for_each on a non-Result type')
+                l_rd = self.newlocal('isize')
+                self.add_block('RET%d' % k, [A({'l': l_rd}, {'r': 'discr', 'pl': {'l': ret_local}, 'ty': ret_ty})],
+                               {'t': 'switch', 'd': mv(l_rd), 'dty': 'isize', 'arms': [[0, nxt], [1, 'BRK%d' % k]], 'otherwise': 'UNR', 'at': at})
+                self.add_block('BRK%d' % k, [A(dest, use(mv(ret_local)))], {'t': 'goto', 'to': T})
+        if kind == 'for_each':
+            self.add_block('NONE', [A(dest, use(unit))], {'t': 'goto', 'to': T})
+        elif kind in ('all', 'any'):
+            self.add_block('NONE', [A(dest, use(cbool(kind == 'all')))], {'t': 'goto', 'to': T})
+            self.add_block('BRK', [A(dest, use(cbool(kind != 'all')))], {'t': 'goto', 'to': T})
+        else:
+            self.add_block('NONE', [A(dest, {'r': 'agg', 'kind': 'adt', 'adt': 'core::result::Result', 'variant': 'Ok', 'vidx': 0, 'fields': ['0'], 'is_enum': True,
+                                           'ops': [unit]})], {'t': 'goto', 'to': T})
+        self.add_block('UNR', [], {'t': 'unreachable'})
+        self.resolve()
+        for cb in neutralise:
+            blocks[cb]['term'] = {'t': 'goto', 'to': blocks[cb]['term']['to']}
+        blocks[bi]['st'] = blocks[bi]['st'] + self.pre
+        blocks[bi]['term'] = {'t': 'goto', 'to': self.names['EL0']}
+
     def rewrite(self, bi):
         insts, body = self.insts, self.body
         blocks = body['blocks']
@@ -384,6 +489,13 @@ class Rewriter:
             iter_ty = am.group(1)
             it = inner
             it_val_ty = ct['argtys'][0] if ct.get('argtys') else iter_ty
+        # ---- a statically known source (`once(a)`, an Option, `A.chain(B)` of those): unroll instead of looping
+        static = self.static_source(it, neutralise) if not stages else None
+        if static is not None:
+            if kind in ('fold', 'try_fold'):
+                raise Bail('fold over a static source')
+            self.rewrite_static(bi, kind, static, ckey, cl_local, nargs, neutralise)
+            return
         # ---- loop skeleton
         l_ref = self.newlocal('&mut ' + it_val_ty)
         nx = _next_callee(insts, iter_ty)
@@ -510,6 +622,7 @@ def _direct_call_target(insts, body, t):
         cl = rv['pl']['l']
     else:
         cl = a0
+    cl = _closure_root(body, cl)
     crv = _single_assign(body, cl)
     if crv is None or crv['r'] != 'agg' or crv.get('kind') != 'closure':
         return None
